@@ -25,6 +25,7 @@ use serde::Serialize;
 use crate::drivers::rule_of;
 use crate::drivers::Job;
 use crate::explore::*;
+use crate::sched::CaptureReporter;
 use crate::model;
 use crate::oracle::Finding;
 use crate::oracle::Judge;
@@ -146,6 +147,25 @@ pub fn run_job(job: &Job) -> JobResult {
     let rules: Vec<Rule> = job.rules.iter().map(|s| rule_of(s)).collect();
     let mut res = JobResult { job_id: job.id, ..Default::default() };
     let mut states = HashSet::new();
+    if let Some(probe) = &job.probe {
+        let fs = match probe.as_str() {
+            "late-reporter" => late_reporter_probe(),
+            other => vec![Finding { rule: "probe".into(), what: format!("unknown probe {other}"), detail: String::new() }],
+        };
+        res.executions = 1;
+        res.transitions = 1;
+        res.nontrivial = 1;
+        states.insert(hash_of(&probe));
+        res.outcomes.insert(hash_of(&fs), 1);
+        res.sample = Some(format!("probe {probe}"));
+        for fd in fs {
+            res.findings.push(FindingGroup { program: Program::new(format!("C16-{probe}")), finding: fd, count: 1, choices: vec![], reproduced: true });
+        }
+        // the process now has a reporter: it cannot serve further no-reporter jobs
+        res.aborted = Some("probe done".into());
+        res.state_hashes = states.into_iter().collect();
+        return res;
+    }
     if job.expand_only {
         let program = &job.programs[0];
         let ex = run_once(program, &job.prefix);
@@ -254,6 +274,88 @@ pub fn run_job(job: &Job) -> JobResult {
     res.state_hashes = states.into_iter().take(200_000).collect();
     res.wall_ms = t0.elapsed().as_millis() as u64;
     res
+}
+
+/// Spans created before a reporter exists stay non-recording after one has been installed: their
+/// closures never run and nothing of them is delivered (C16).
+pub fn late_reporter_probe() -> Vec<Finding> {
+    use fastrace::prelude::*;
+    use std::cell::Cell;
+    let mut out = Vec::new();
+    let hits = Cell::new(0u32);
+    let hit = || hits.set(hits.get() + 1);
+    let s = crate::sched::sched();
+    let root = Span::root("early", SpanContext::new(TraceId(0xE), SpanId(0))).with_property(|| {
+        hit();
+        ("k", "v")
+    });
+    let child = Span::enter_with_parent("early.c", &root).with_properties(|| {
+        hit();
+        [("k", "v")]
+    });
+    let guard = root.set_local_parent();
+    let local = LocalSpan::enter_with_local_parent("early.l").with_property(|| {
+        hit();
+        ("k", "v")
+    });
+    // now install the reporter
+    let before = s.world().total_reports;
+    fastrace::set_reporter(
+        CaptureReporter,
+        fastrace::collector::Config::default().report_interval(Duration::from_secs(1_000_000_000)),
+    );
+    let t0 = Instant::now();
+    while s.world().total_reports == before && t0.elapsed() < Duration::from_secs(10) {
+        std::thread::sleep(Duration::from_micros(200));
+    }
+    {
+        let mut w = s.world();
+        w.active = true;
+        w.reports.clear();
+    }
+    child.add_property(|| {
+        hit();
+        ("k2", "v2")
+    });
+    root.add_properties(|| {
+        hit();
+        [("k3", "v3")]
+    });
+    LocalSpan::add_property(|| {
+        hit();
+        ("k4", "v4")
+    });
+    let late_child = Span::enter_with_parent("late.c", &root).with_property(|| {
+        hit();
+        ("k5", "v5")
+    });
+    let late_local_child = Span::enter_with_local_parent("late.lc").with_property(|| {
+        hit();
+        ("k6", "v6")
+    });
+    if root.elapsed().is_some() || child.elapsed().is_some() || late_child.elapsed().is_some() {
+        out.push(Finding { rule: "elapsed".into(), what: "elapsed() is Some for a span created before the reporter existed".into(), detail: String::new() });
+    }
+    if SpanContext::from_span(&root).is_some() || SpanContext::from_span(&late_child).is_some() || SpanContext::current_local_parent().is_some() {
+        out.push(Finding { rule: "ctx".into(), what: "context extracted from a span created before the reporter existed".into(), detail: String::new() });
+    }
+    drop(late_local_child);
+    drop(late_child);
+    drop(local);
+    drop(guard);
+    drop(child);
+    drop(root);
+    fastrace::flush();
+    fastrace::flush();
+    let n: usize = s.world().reports.iter().map(|b| b.records.len()).sum();
+    s.world().active = false;
+    if n > 0 {
+        out.push(Finding { rule: "no-extra".into(), what: "records delivered for spans created before the reporter existed".into(), detail: format!("{n} records") });
+    }
+    if hits.get() > 0 {
+        out.push(Finding { rule: "lazy".into(), what: "property closure of a span created before the reporter existed was invoked".into(), detail: format!("{} invocations", hits.get()) });
+    }
+    out
 }
 
 /// Re-runs the schedule and keeps the finding only if it shows up again (twice in total).
@@ -381,6 +483,8 @@ fn known_match(k: &KnownEntry, property: &str, fd: &Finding, program: &str, canc
 
 #[derive(Debug, Clone, Serialize, Deserialize)]
 pub struct Replay {
+    #[serde(default)]
+    pub probe: Option<String>,
     pub property: String,
     pub program: Program,
     pub cancelable: bool,
@@ -403,6 +507,8 @@ pub struct CheckSpec {
     pub bound_text: String,
     pub exhaustive_claim: bool,
     pub wall_cap: Duration,
+    /// an additional engine run as a separate binary; prints one JSON object
+    pub external: Option<(String, Vec<String>)>,
 }
 
 struct JobMeta {
@@ -541,7 +647,7 @@ pub fn run_check(spec: CheckSpec) -> i32 {
                         if let Some(ab) = &res.aborted {
                             // a hang or deadlock is judged through the liveness rule; anything
                             // else that aborts an exploration is a machinery failure
-                            let judged = res.findings.iter().any(|g| g.finding.rule == "liveness");
+                            let judged = res.findings.iter().any(|g| g.finding.rule == "liveness") || ab == "probe done";
                             if !judged {
                                 a.machinery.push(format!("job {} ({}): exploration aborted: {ab}", job.id, job_name(&job)));
                             }
@@ -637,6 +743,7 @@ fn finish_check(spec: &CheckSpec, agg: Agg, t0: Instant) -> i32 {
         }
         violations += 1;
         let rp = Replay {
+            probe: if g.program.actors.is_empty() { g.program.name.strip_prefix("C16-").map(String::from) } else { None },
             property: spec.property.clone(),
             program: g.program.clone(),
             cancelable: job.cancelable,
@@ -653,6 +760,31 @@ fn finish_check(spec: &CheckSpec, agg: Agg, t0: Instant) -> i32 {
         println!("  {} / {} [{} , {}; {} programs, {} executions]: {}", g.finding.rule, g.finding.what, fam, cfg, nprog, nexec, g.finding.detail);
         println!("  e.g. {}", g.program.short());
         violation_list.push(serde_json::json!({"rule": g.finding.rule, "what": g.finding.what, "program_family": fam, "config": cfg, "programs": nprog, "executions": nexec, "replay": path}));
+    }
+    let mut external_json = serde_json::Value::Null;
+    let mut external_evals = 0u64;
+    if let Some((cmd, args)) = &spec.external {
+        match Command::new(cmd).args(args).env("RUST_BACKTRACE", "0").output() {
+            Ok(o) if o.status.success() => match serde_json::from_slice::<serde_json::Value>(&o.stdout) {
+                Ok(v) => {
+                    external_evals = v["sequences"].as_u64().unwrap_or(0);
+                    for viol in v["violations"].as_array().cloned().unwrap_or_default() {
+                        violations += 1;
+                        let dir = format!("{root}/replays");
+                        let _ = std::fs::create_dir_all(&dir);
+                        let path = format!("{dir}/{}-external-{:016x}.json", spec.property, hash_of(&viol.to_string()));
+                        std::fs::write(&path, serde_json::to_string_pretty(&serde_json::json!({"external": cmd, "args": args, "violation": viol})).unwrap()).unwrap();
+                        println!("VIOLATION property={} replay={}", spec.property, path);
+                        println!("  disabled build: {} after [{}]", viol["what"], viol["sequence"]);
+                        violation_list.push(viol);
+                    }
+                    external_json = v;
+                }
+                Err(e) => machinery.push(format!("external engine {cmd}: bad output: {e}")),
+            },
+            Ok(o) => machinery.push(format!("external engine {cmd} failed: {:?}: {}", o.status, String::from_utf8_lossy(&o.stderr).chars().take(400).collect::<String>())),
+            Err(e) => machinery.push(format!("external engine {cmd}: {e}")),
+        }
     }
     for (k, n) in &known_hits {
         println!("{k} [{n} executions]");
@@ -671,7 +803,8 @@ fn finish_check(spec: &CheckSpec, agg: Agg, t0: Instant) -> i32 {
             "states": agg.states.len(),
             "transitions": agg.transitions,
             "traces_validated_against_impl": agg.executions,
-            "evaluations": agg.executions,
+            "evaluations": agg.executions + external_evals,
+            "external_engine": external_json,
             "distinct_nontrivial": agg.nontrivial,
             "rule": spec.rule_text,
             "samples": agg.samples,
@@ -722,6 +855,22 @@ fn finish_check(spec: &CheckSpec, agg: Agg, t0: Instant) -> i32 {
 pub fn replay_main(path: &str) -> i32 {
     let rp: Replay = serde_json::from_str(&std::fs::read_to_string(path).expect("replay file")).expect("replay json");
     init_process_mode(rp.cancelable, rp.no_reporter);
+    if let Some(probe) = &rp.probe {
+        let fs = match probe.as_str() {
+            "late-reporter" => late_reporter_probe(),
+            _ => vec![],
+        };
+        for fd in &fs {
+            println!("  finding: {} / {}: {}", fd.rule, fd.what, fd.detail);
+        }
+        return if fs.iter().any(|x| x.rule == rp.finding.rule && x.what == rp.finding.what) {
+            println!("VIOLATION property={} replay={}", rp.property, path);
+            1
+        } else {
+            println!("not reproduced");
+            0
+        };
+    }
     let rules: Vec<Rule> = rp.rules.iter().map(|s| rule_of(s)).collect();
     let mut hits = 0;
     for round in 0..2 {
